@@ -16,7 +16,7 @@ added to meta.json.  Never touches /repo's working tree.
 """
 import json, os, re, shutil, subprocess, sys
 
-WT = "/tmp/confirm-wt"
+WT = os.environ.get("CONFIRM_WT", "/tmp/confirm-wt")
 PKG = {"vls-core": "vls-core", "vls-persist": "vls-persist", "vls-protocol-signer": "vls-protocol-signer",
        "vls-protocol": "vls-protocol", "lightning-storage-server/lib": "lightning-storage-server",
        "vls-frontend": "vls-frontend", "vlsd": "vlsd", "bolt-derive": "bolt-derive", "vls-proxy": "vls-proxy",
